@@ -5,4 +5,5 @@ VERIF_DIR="$(cd "$(dirname "$0")" && pwd)"
 export CARGO_NET_OFFLINE=true
 mkdir -p "$VERIF_DIR/.build" "$VERIF_DIR/evidence" "$VERIF_DIR/replays"
 cd "$VERIF_DIR/mc" && cargo build --release --offline
+cd "$VERIF_DIR/loomcheck" && cargo build --release --offline
 echo "setup done"
